@@ -337,7 +337,8 @@ def main(argv=None):
 
 
 def _scen_worker(args):
-    name, params, opts, modname = args
+    name, params, opts, modname = args[:4]
+    canary_label = args[4] if len(args) > 4 else None
     import importlib
     import warnings
 
@@ -348,7 +349,11 @@ def _scen_worker(args):
     shims.patch_quansino(extra=getattr(mod, "patch_extra", lambda: None)())
     fn = mod.SCENARIOS[name]
     symx._install_monitor()
-    res = symx.explore(lambda: fn(symx.Sym(), **params), opts, workers=1, deadline_s=opts.get("deadline_s"))
+    mk = (lambda: symx.CanarySym(canary_label)) if canary_label else symx.Sym
+    if canary_label:
+        opts = dict(opts)
+        opts["no_witness"] = True
+    res = symx.explore(lambda: fn(mk(), **params), opts, workers=1, deadline_s=opts.get("deadline_s"))
     res.functions.update(symx._seen_code)
     return res
 
@@ -362,8 +367,8 @@ def run_plan(rep, plan, scenarios, opts, workers=None, canaries=()):
     items = []
     for it in plan:
         name, params, reach = it[0], it[1], it[2]
-        canary = bool(it[3]) if len(it) > 3 else False
-        tag = name + "[" + ",".join(f"{k}={v}" for k, v in params.items()) + "]"
+        canary = it[3] if len(it) > 3 else False
+        tag = name + "[" + ",".join(f"{k}={v}" for k, v in params.items()) + "]" + (f"<canary:{canary}>" if canary else "")
         if only and not re.search(only, tag):
             continue
         items.append((tag, name, params, reach, canary))
@@ -398,7 +403,7 @@ def run_plan(rep, plan, scenarios, opts, workers=None, canaries=()):
             k = queue.pop(0)
             pc, cc = ctx.Pipe(duplex=False)
             _, name, params, _, _ = items[k]
-            pr = ctx.Process(target=child, args=(cc, (name, params, opts, modname)), daemon=True)
+            pr = ctx.Process(target=child, args=(cc, (name, params, opts, modname, items[k][4] or None)), daemon=True)
             pr.start()
             cc.close()
             running[k] = (pr, pc, time.time())
@@ -432,9 +437,9 @@ def run_plan(rep, plan, scenarios, opts, workers=None, canaries=()):
                 r.bound_hits.append(f"scenario wall-clock limit ({limit:.0f}s) hit: a solver query or the path count exceeded the budget")
             else:
                 r.errors.append(f"worker failed: {res}")
-            rep.add(tag, r, params, expect_reach=(), canary=canary)
+            rep.add(tag, r, params, expect_reach=(), canary=bool(canary))
             continue
-        rep.add(tag, res, params, expect_reach=reach, canary=canary)
+        rep.add(tag, res, params, expect_reach=() if canary else reach, canary=bool(canary))
         rep.note_sample({"scenario": tag, "paths": res.paths, "obligations": {f"{k[0]}:{k[1]}": v for k, v in res.oblig.items()}})
 
 
